@@ -134,14 +134,26 @@ def _year_days(yy):
     return 366 if tlefmt.is_leap(tlefmt.year4(yy)) else 365
 
 
+_NEAR_MIDNIGHT = uniform_int(0, 162000)  # 1e-8 day units: within 140 s
+
+
 @functools.lru_cache(maxsize=None)
 @st.composite
 def epochs(draw, yy=None):
+    """(two-digit year, day of year * 1e8).  A quarter of the draws lie within 140 s of a UTC
+    midnight, half of those at the turn of the year (day 1.000x or last day .999x)."""
     if yy is None:
         yy = draw(_YY)
     nd = _year_days(yy)
-    day = draw(_DAY[nd])
-    frac = draw(ints(0, 10**8 - 1, [1, 5 * 10**7, 5 * 10**7 - 1]))
+    kind = draw(st.integers(0, 7))
+    if kind >= 2:
+        day = draw(_DAY[nd])
+        frac = draw(ints(0, 10**8 - 1, [1, 5 * 10**7, 5 * 10**7 - 1]))
+    else:
+        d = draw(_NEAR_MIDNIGHT)
+        after = draw(st.booleans())
+        day = (1 if after else nd) if kind == 0 else draw(_DAY[nd])
+        frac = d if after else 10**8 - 1 - d
     return yy, day * 10**8 + frac
 
 
